@@ -42,25 +42,31 @@ func (q ReachQ) Run() ReachResult {
 	if len(q.Fn.Blocks) == 0 {
 		return res
 	}
+	type node struct {
+		b    *ssa.BasicBlock
+		pred *ssa.BasicBlock // only set for blocks branching on a phi of their own
+	}
 	type item struct {
-		b     *ssa.BasicBlock
+		n     node
 		start int
 	}
-	parent := map[*ssa.BasicBlock]*ssa.BasicBlock{}
-	visited := map[*ssa.BasicBlock]bool{}
+	parent := map[node]node{}
+	hasParent := map[node]bool{}
+	visited := map[node]bool{}
 	var queue []item
 	if q.From != nil {
-		queue = append(queue, item{q.From.B, q.From.I + 1})
+		queue = append(queue, item{node{q.From.B, nil}, q.From.I + 1})
 		// the start block may be re-entered from its beginning through a loop
 	} else {
-		queue = append(queue, item{q.Fn.Blocks[0], 0})
-		visited[q.Fn.Blocks[0]] = true
+		n0 := node{q.Fn.Blocks[0], nil}
+		queue = append(queue, item{n0, 0})
+		visited[n0] = true
 	}
-	pathTo := func(b *ssa.BasicBlock) []*ssa.BasicBlock {
+	pathTo := func(n node) []*ssa.BasicBlock {
 		var p []*ssa.BasicBlock
-		for x := b; x != nil; x = parent[x] {
-			p = append([]*ssa.BasicBlock{x}, p...)
-			if len(p) > len(q.Fn.Blocks)+1 {
+		for x, ok := n, true; ok; x, ok = parent[x], hasParent[x] {
+			p = append([]*ssa.BasicBlock{x.b}, p...)
+			if len(p) > 4*len(q.Fn.Blocks)+1 {
 				break
 			}
 		}
@@ -71,10 +77,10 @@ func (q ReachQ) Run() ReachResult {
 		queue = queue[1:]
 		res.Blocks++
 		cut := false
-		for i := it.start; i < len(it.b.Instrs); i++ {
-			in := it.b.Instrs[i]
+		for i := it.start; i < len(it.n.b.Instrs); i++ {
+			in := it.n.b.Instrs[i]
 			if q.Sink != nil && q.Sink(in) {
-				res.Found, res.At, res.Path = true, in, pathTo(it.b)
+				res.Found, res.At, res.Path = true, in, pathTo(it.n)
 				return res
 			}
 			if q.CutInstr != nil && q.CutInstr(in) {
@@ -85,30 +91,94 @@ func (q ReachQ) Run() ReachResult {
 		if cut {
 			continue
 		}
-		for si, s := range it.b.Succs {
+		for si, s := range it.n.b.Succs {
 			res.Edges++
-			if q.CutEdge != nil && q.CutEdge(it.b, si) {
+			if it.n.pred != nil && !phiBranchFeasible(it.n.b, it.n.pred, si) {
+				continue // the branch tests a phi whose value on this incoming edge is a constant
+			}
+			if q.CutEdge != nil && q.CutEdge(it.n.b, si) {
 				continue
 			}
-			if q.SinkEdge != nil && q.SinkEdge(it.b, si) {
-				res.Found, res.Path = true, append(pathTo(it.b), s)
-				res.EdgeHit = [2]*ssa.BasicBlock{it.b, s}
+			if q.SinkEdge != nil && q.SinkEdge(it.n.b, si) {
+				res.Found, res.Path = true, append(pathTo(it.n), s)
+				res.EdgeHit = [2]*ssa.BasicBlock{it.n.b, s}
 				return res
 			}
 			if q.Region != nil && !q.Region[s] {
 				continue
 			}
-			if visited[s] {
+			nn := node{s, nil}
+			if branchesOnOwnPhi(s) {
+				nn.pred = it.n.b
+			}
+			if visited[nn] {
 				continue
 			}
-			visited[s] = true
-			if _, ok := parent[s]; !ok && s != it.b {
-				parent[s] = it.b
+			visited[nn] = true
+			if !hasParent[nn] && nn != it.n {
+				parent[nn] = it.n
+				hasParent[nn] = true
 			}
-			queue = append(queue, item{s, 0})
+			queue = append(queue, item{nn, 0})
 		}
 	}
 	return res
+}
+
+// branchesOnOwnPhi: the block ends in an If whose condition is (the negation of) a
+// boolean phi defined in the block itself.
+func branchesOnOwnPhi(b *ssa.BasicBlock) bool {
+	_, ok := ownPhiCond(b)
+	return ok
+}
+
+func ownPhiCond(b *ssa.BasicBlock) (*ssa.Phi, bool) {
+	if len(b.Instrs) == 0 {
+		return nil, false
+	}
+	iff, ok := b.Instrs[len(b.Instrs)-1].(*ssa.If)
+	if !ok {
+		return nil, false
+	}
+	c := Decompose(iff.Cond)
+	if c.Val == nil {
+		return nil, false
+	}
+	phi, ok := c.Val.(*ssa.Phi)
+	if !ok || phi.Block() != b {
+		return nil, false
+	}
+	return phi, true
+}
+
+// phiBranchFeasible: entering b from pred, can successor si be taken?
+func phiBranchFeasible(b, pred *ssa.BasicBlock, si int) bool {
+	phi, ok := ownPhiCond(b)
+	if !ok {
+		return true
+	}
+	iff := b.Instrs[len(b.Instrs)-1].(*ssa.If)
+	neg := Decompose(iff.Cond).Neg
+	feasible := false
+	known := false
+	for i, p := range b.Preds {
+		if p != pred {
+			continue
+		}
+		v, isC := ConstBool(phi.Edges[i])
+		if !isC {
+			return true
+		}
+		known = true
+		takeTrue := v != neg
+		if (takeTrue && si == 0) || (!takeTrue && si == 1) {
+			feasible = true
+		}
+	}
+	if !known {
+		return true
+	}
+	return feasible
 }
 
 // AtomEdges returns a CutEdge function that cuts every edge establishing any of the atoms.
